@@ -2,6 +2,8 @@ package c15
 
 import (
 	"go/ast"
+	"go/token"
+	"go/types"
 
 	"golang.org/x/tools/go/cfg"
 
@@ -36,13 +38,167 @@ func edgeFacts(g *cfgq.Graph, b *cfg.Block, succ int) []cfgq.Fact {
 	} else if b.Kind == cfg.KindSwitchNextCase {
 		return nil
 	}
-	return cfgq.Facts(cond, succ == 0)
+	return expandLocals(g, cfgq.Facts(cond, succ == 0), 0)
+}
+
+// expandLocals makes a condition carried in a boolean local transparent:
+// `match := a == b; if !match { ... }` establishes the same facts as
+// `if !(a == b)`. The local must be assigned exactly once and the variables its
+// definition mentions must not be written anywhere else (so the definition
+// still holds where the local is tested).
+func expandLocals(g *cfgq.Graph, facts []cfgq.Fact, depth int) []cfgq.Fact {
+	var out []cfgq.Fact
+	for _, f := range facts {
+		out = append(out, f)
+		id, ok := ast.Unparen(f.Expr).(*ast.Ident)
+		if !ok || depth > 2 || g.Info == nil {
+			continue
+		}
+		o := g.Info.Uses[id]
+		if o == nil {
+			continue
+		}
+		def := soleDef(g, o)
+		if def == nil {
+			continue
+		}
+		stable := true
+		ast.Inspect(def, func(n ast.Node) bool {
+			if x, isId := n.(*ast.Ident); isId {
+				if v, isVar := g.Info.Uses[x].(*types.Var); isVar && !v.IsField() && v.Pkg() != nil && v.Parent() != v.Pkg().Scope() {
+					if writes(g, v) > 1 {
+						stable = false
+					}
+				}
+			}
+			return true
+		})
+		if stable {
+			out = append(out, expandLocals(g, cfgq.Facts(def, f.Val), depth+1)...)
+		}
+	}
+	return out
+}
+
+// writes counts the assignments (of any kind) to o in the graph's function body.
+func writes(g *cfgq.Graph, o types.Object) int {
+	n := 0
+	ast.Inspect(g.Body, func(m ast.Node) bool {
+		switch s := m.(type) {
+		case *ast.AssignStmt:
+			for _, l := range s.Lhs {
+				if id, ok := ast.Unparen(l).(*ast.Ident); ok && (g.Info.Uses[id] == o || g.Info.Defs[id] == o) {
+					n++
+				}
+			}
+		case *ast.IncDecStmt:
+			if id, ok := ast.Unparen(s.X).(*ast.Ident); ok && g.Info.Uses[id] == o {
+				n++
+			}
+		case *ast.RangeStmt:
+			for _, e := range []ast.Expr{s.Key, s.Value} {
+				if id, ok := e.(*ast.Ident); ok && e != nil && (g.Info.Uses[id] == o || g.Info.Defs[id] == o) {
+					n++
+				}
+			}
+		case *ast.UnaryExpr:
+			if id, ok := ast.Unparen(s.X).(*ast.Ident); ok && s.Op == token.AND && g.Info.Uses[id] == o {
+				n += 2 // address taken: anything may write it
+			}
+		}
+		return true
+	})
+	return n
+}
+
+// soleDef: the right-hand side of the only assignment to o (1:1 position), nil otherwise.
+func soleDef(g *cfgq.Graph, o types.Object) ast.Expr {
+	if writes(g, o) != 1 {
+		return nil
+	}
+	var def ast.Expr
+	ast.Inspect(g.Body, func(m ast.Node) bool {
+		if as, ok := m.(*ast.AssignStmt); ok && len(as.Lhs) == len(as.Rhs) && (as.Tok == token.DEFINE || as.Tok == token.ASSIGN) {
+			for i, l := range as.Lhs {
+				if id, ok := ast.Unparen(l).(*ast.Ident); ok && (g.Info.Uses[id] == o || g.Info.Defs[id] == o) {
+					def = as.Rhs[i]
+				}
+			}
+		}
+		return true
+	})
+	return def
 }
 
 func edgeHas(g *cfgq.Graph, b *cfg.Block, succ int, match func(cfgq.Fact) bool) bool {
 	for _, f := range edgeFacts(g, b, succ) {
 		if match(f) {
 			return true
+		}
+	}
+	// De Morgan: leaving `A && B` through its false edge says "A false or B
+	// false"; the edge still establishes a property that follows from either
+	if len(edgeFacts(g, b, succ)) == 0 && readable(g, b) {
+		return implied(g, cfgq.CondOf(b), succ == 0, match, 0)
+	}
+	return false
+}
+
+// readable: the block ends in a boolean condition whose edges can be interpreted
+// (if/for conditions and tagless switch cases).
+func readable(g *cfgq.Graph, b *cfg.Block) bool {
+	if cfgq.CondOf(b) == nil || b.Kind == cfg.KindSwitchNextCase && b.Succs[0].Kind != cfg.KindSwitchCaseBody {
+		return false
+	}
+	if b.Succs[0].Kind == cfg.KindSwitchCaseBody {
+		clause, _ := b.Succs[0].Stmt.(*ast.CaseClause)
+		tagless := false
+		ast.Inspect(g.Body, func(n ast.Node) bool {
+			if sw, ok := n.(*ast.SwitchStmt); ok && sw.Tag == nil {
+				for _, cl := range sw.Body.List {
+					if cl == ast.Stmt(clause) && clause != nil {
+						tagless = true
+					}
+				}
+			}
+			return !tagless
+		})
+		return tagless
+	}
+	return true
+}
+
+// implied: does `cond == val` imply the property recognised by match? A
+// conjunction implies it if one conjunct does, a disjunction only if every
+// disjunct does; negation and boolean locals are looked through.
+func implied(g *cfgq.Graph, cond ast.Expr, val bool, match func(cfgq.Fact) bool, depth int) bool {
+	cond = ast.Unparen(cond)
+	if depth > 6 {
+		return false
+	}
+	switch x := cond.(type) {
+	case *ast.UnaryExpr:
+		if x.Op == token.NOT {
+			return implied(g, x.X, !val, match, depth+1)
+		}
+	case *ast.BinaryExpr:
+		if x.Op == token.LAND || x.Op == token.LOR {
+			conj := (x.Op == token.LAND) == val // the statement is "both" (true) or "at least one of" (false)
+			l, r := implied(g, x.X, val, match, depth+1), implied(g, x.Y, val, match, depth+1)
+			if conj {
+				return l || r
+			}
+			return l && r
+		}
+	}
+	for _, f := range expandLocals(g, []cfgq.Fact{{Expr: cond, Val: val}}, 0) {
+		if match(f) {
+			return true
+		}
+		if f.Expr != cond { // a boolean local standing for a compound condition
+			if _, isBin := ast.Unparen(f.Expr).(*ast.BinaryExpr); isBin && implied(g, f.Expr, f.Val, match, depth+1) {
+				return true
+			}
 		}
 	}
 	return false
